@@ -729,6 +729,8 @@ class BaseART(BaseEstimator, ClusterMixin):
             fig, ax = plt.subplots()
             ax.set_xlim(-0.1, 1.1)
             ax.set_ylim(-0.1, 1.1)
+        else:
+            fig = ax.get_figure()
         if filename is None:
             filename = f"fit_gif_{self.__class__.__name__}.gif"
         if colors is None:
